@@ -24,10 +24,11 @@ type sortCtx struct {
 	structName map[*types.Struct]string
 	heaps      map[string]string // heap name -> SMT sort of the heap
 	tkeys      map[string]types.Type
+	mapKeySort map[string]string
 }
 
 func newSortCtx() *sortCtx {
-	return &sortCtx{structs: map[string]*types.Struct{}, structName: map[*types.Struct]string{}, heaps: map[string]string{}, tkeys: map[string]types.Type{}}
+	return &sortCtx{structs: map[string]*types.Struct{}, structName: map[*types.Struct]string{}, heaps: map[string]string{}, tkeys: map[string]types.Type{}, mapKeySort: map[string]string{}}
 }
 
 func sanitize(s string) string {
@@ -268,6 +269,7 @@ func (sc *sortCtx) mapHeaps(m *types.Map) (string, string) {
 	sc.heaps[v] = "(Array Int (Array " + sc.sortOf(m.Key()) + " " + sc.sortOf(m.Elem()) + "))"
 	sc.heaps[h] = "(Array Int (Array " + sc.sortOf(m.Key()) + " Bool))"
 	sc.tkeys[v] = m.Elem()
+	sc.mapKeySort[v] = sc.sortOf(m.Key())
 	return v, h
 }
 
@@ -339,6 +341,15 @@ func (sc *sortCtx) typeInv(term string, t types.Type, depth int) []string {
 			out = append(out, sc.typeInv("("+sc.fieldSel(n, f)+" "+term+")", f.Type(), depth+1)...)
 		}
 		return out
+	case *types.Array:
+		// small arrays of integers: every element is in range
+		if u.Len() <= 32 && isInteger(u.Elem()) {
+			var out []string
+			for k := int64(0); k < u.Len(); k++ {
+				out = append(out, sc.typeInv(fmt.Sprintf("(select %s %d)", term, k), u.Elem(), depth+1)...)
+			}
+			return out
+		}
 	case *types.Pointer, *types.Interface, *types.Map, *types.Chan, *types.Signature:
 		return []string{fmt.Sprintf("(<= 0 %s)", term)}
 	}
